@@ -32,6 +32,7 @@ type params struct {
 	pos    int                       // position of boom in the burst (1..3)
 	hook   string                    // none | restarted-panic | prelaunch-err | prerestart-err
 	second bool                      // a fails a second time later
+	fine   bool                      // the mailbox package's atomic / lock operations are switch points too (lost wake-ups of supervision commands)
 }
 
 func (p params) name() string {
@@ -39,7 +40,11 @@ func (p params) name() string {
 	if p.all {
 		st = "all"
 	}
-	return fmt.Sprintf("site=%s/%s/dec=%s/for-%s/dec2=%s/dec3=%s/pos=%d/hook=%s/second=%v", p.site, p.cause, p.dec, st, p.dec2, p.dec3, p.pos, p.hook, p.second)
+	n := fmt.Sprintf("site=%s/%s/dec=%s/for-%s/dec2=%s/dec3=%s/pos=%d/hook=%s/second=%v", p.site, p.cause, p.dec, st, p.dec2, p.dec3, p.pos, p.hook, p.second)
+	if p.fine {
+		n += "/fine-mailbox"
+	}
+	return n
 }
 
 const (
@@ -132,10 +137,14 @@ func fail(ctx vivid.ActorContext, cause string) {
 }
 
 func scenario(p params, bounds []int) *vexp.Scenario {
+	cfg := vsys.Coarse(80000)
+	if p.fine {
+		cfg.FinePkgs = []string{"vivid/internal/mailbox."}
+	}
 	return &vexp.Scenario{
 		Name:   p.name(),
 		Family: "dec=" + p.dec.String(),
-		Cfg:    vsys.Coarse(80000),
+		Cfg:    cfg,
 		Bounds: bounds,
 		Setup:  func(x *vexp.X) { vsys.CoarseSetup() },
 		Body: func(x *vexp.X) {
@@ -450,6 +459,9 @@ func scenario(p params, bounds []int) *vexp.Scenario {
 					checkBurst("/u/t/s/b", ctxB, sentB, restarted, "")
 				}
 			}
+			if p.fine {
+				vrt.Freeze() // the fine-grained part is about the supervision commands; the probes below would wake a stuck mailbox anyway
+			}
 			// probes: every survivor processes a message sent after quiescence
 			var probed []string
 			for _, c := range sysd.Contexts {
@@ -499,6 +511,7 @@ func scenario(p params, bounds []int) *vexp.Scenario {
 					rule("C09", "zombie-released-by-kill", "zombie /u/t/s/a still registered after Kill")
 				}
 			}
+			vrt.Freeze()
 			err := w.Sys.Stop()
 			vrt.Quiesce()
 			if err != nil {
@@ -591,6 +604,19 @@ func build(tier string) []*vexp.Scenario {
 		p := base
 		p.dec, p.second = d, true
 		add(p)
+	}
+	// the supervision command races the failed actor's mailbox going idle: mailbox operations are switch points
+	if *prop == "C09" {
+		for _, pos := range []int{1, 2} {
+			for _, d := range append(append([]vivid.SupervisionDecision{}, decisions...), vivid.SupervisionDecisionEscalate) {
+				p := base
+				p.dec, p.pos, p.fine = d, pos, true
+				if d == vivid.SupervisionDecisionEscalate {
+					p.dec2 = vivid.SupervisionDecisionGracefulRestart
+				}
+				out = append(out, scenario(p, []int{0, 1}))
+			}
+		}
 	}
 	// hooks failing during restart
 	for _, h := range []string{"restarted-panic", "prelaunch-err", "prerestart-err"} {
